@@ -247,6 +247,11 @@ func yieldSlow(site uint32) {
 	if forced == -2 && s.cfg.HotRate != 0 && int(site) < len(s.hotAt) && s.hotAt[site] && uint32(s.rand()&0xffff) < s.cfg.HotRate {
 		forced = -1
 	}
+	if s.steps > 50*s.cfg.MaxSteps {
+		// checked before the early return: under the serial policy (reference pass, warm-up)
+		// nextAt is "never", and the budget must still end a runaway call
+		panic("simrt: step budget exceeded 50x (livelock?)")
+	}
 	if s.steps < s.nextAt && forced == -2 {
 		return
 	}
